@@ -63,7 +63,11 @@ static void run(Src &s) {
   std::vector<Consulted> cons = consulted_files(t, pa);
   materialise(t, pa, g_scr.dir);
   bool use_cb = !s.chance(25);
-  g_case.desc = describe(t, pa) + (use_cb ? " via readConfigWithCallback" : " via readConfig");
+  // the caller's options object may have been through an earlier read that failed (nothing of it may stick)
+  pa.warmup_failed_read = s.chance(12);
+  if (pa.warmup_failed_read) g_case.tag("object_reused_after_failed_read");
+  g_case.desc = describe(t, pa) + (use_cb ? " via readConfigWithCallback" : " via readConfig") +
+                (pa.warmup_failed_read ? " (options object reused after a failed read)" : "");
 
   // ---- classes
   size_t nmain_layers = 0, masked = 0;
